@@ -601,7 +601,7 @@ func replay(path string, tier string) {
 		}
 		cls := strings.Join(sigc, "+")
 		if cls == "" {
-			cls = "no-deviation"
+			cls = "unclassified"
 		}
 		if len(buff) != mu.Len {
 			drift(fmt.Sprintf("%s: length of the mutant: specification %d, bytes %d (classes %s)", in.Kind, mu.Len, len(buff), cls),
